@@ -259,13 +259,15 @@ impl Env {
     }
 
     pub fn assign_from_string(&mut self, assignment: &str) -> Result<(), anyhow::Error> {
-        if let Some((var, value)) = assignment.split_once("+=") {
+        // the first `=` separates variable and value; `VAR+=value` appends.
+        // (looking for the first "+=" anywhere would turn `VAR=a+=b` into `VAR=a` += `b`)
+        if let Some((var, value)) = assignment.split_once('=') {
             let mut new = Env::new();
-            new.insert(var.to_string(), EnvKey::List(vector![value.to_owned()]));
-            self.merge(&new);
-        } else if let Some((var, value)) = assignment.split_once('=') {
-            let mut new = Env::new();
-            new.insert(var.to_string(), EnvKey::Single(value.to_string()));
+            if let Some(var) = var.strip_suffix('+') {
+                new.insert(var.to_string(), EnvKey::List(vector![value.to_owned()]));
+            } else {
+                new.insert(var.to_string(), EnvKey::Single(value.to_string()));
+            }
             self.merge(&new);
         } else {
             return Err(anyhow!(format!(
